@@ -5,9 +5,11 @@ TRUSTED = ("Trusted: rustc nightly's type checker, trait resolution and MIR cons
            "listed there as 'not decided' (and in the evidence file's not_decided key) are outside static reach.")
 
 ENGINES = [
-    {"name": "gcv-driver", "path": "/verif/driver", "serves_properties": ["C03"],
+    {"name": "gcv-driver", "path": "/verif/driver", "serves_properties": ["C01","C02","C03","C04","C05","C06","C07","C08","C10","C11"],
      "kind_free_text": "nightly rustc_private driver (zero deps) injected with RUSTC_WORKSPACE_WRAPPER into cargo +nightly check of /repo; dumps items, impls, predicates, variances, resolved call edges and structured per-instance MIR as JSON"},
-    {"name": "gcv-rules", "path": "/verif/gcv", "serves_properties": ["C03"],
+    {"name": "gcv-typestate", "path": "/verif/gcv/interp.py", "serves_properties": ["C01","C02","C04","C05","C06","C07","C08","C10","C11"],
+     "kind_free_text": "Python abstract interpreter over the MIR dump (finite typestate domain, path-sensitive, interprocedural by inlining resolved callees, unwind edges followed); extracts transition tables and a per-object automaton compared with hand-written spec tables (gcv/spec.py, gcv/spec_protocol.py)"},
+    {"name": "gcv-rules", "path": "/verif/gcv", "serves_properties": ["C01","C02","C03","C04","C05","C07","C10","C11"],
      "kind_free_text": "Python rule engines over the driver's facts: who-may-call / reachability over the resolved call graph, CFG dominance incl. unwind edges, signature and impl-table rules"},
 ]
 
@@ -15,9 +17,22 @@ NOTES = ("Static analysis only: no registered check executes gc-arena code. Ever
          "working tree through the compiler (facts cached under /verif/.cache keyed by a content hash of the sources "
          "and of the driver). See DESIGN.md.")
 
-NOT_CLAIMED = {}
+NOT_TS = ("abstract interpretation of the compiler's MIR on a finite typestate domain (transition tables for every "
+      "abstract pre-state) + per-object typestate automaton + hand-written spec oracle")
+
+def _c(tech, text):
+    return {"technique": tech, "text": text, "note": TRUSTED}
 
 CLAIMED = {
+    "C01": _c(TS + "; call-graph confinement rules",
+              "Decides the local obligations O1-O8 of the tri-colour safety argument for every abstract colour/phase/queue "
+              "state and every MIR path (normal and unwind) of the collector primitives, barriers and sanctioned adoption "
+              "paths, and the free-site discipline over the resolved call graph. The global theorem is the paper induction "
+              "of DESIGN.md §7 over these machine-checked premises; histories over concrete heaps are not explored."),
+    "C02": _c(TS + "; call-graph confinement of colour writers",
+              "Decides the structural necessary conditions of exact, complete reclamation: exact per-object sweep outcome "
+              "table, colour-move frame conditions of every primitive, totality of the sweep, shell release path, whole-cycle "
+              "semantics of finish_cycle (protocol exploration of do_collection's MIR). Set equality on histories is not decided."),
     "C03": {
         "technique": "call-graph reachability (resolved callees, drop glue, vtable slots) + signature rule + CFG ordering rule",
         "text": "For every externally callable function of the crate, in every feature configuration analysed, collection work "
@@ -27,4 +42,33 @@ CLAIMED = {
                 "state at once; it is the right level because the property is structural (who may call what).",
         "note": TRUSTED,
     },
+    "C04": _c(TS + "; CFG rule for the live flag",
+              "Exactly-once destruction as a typestate invariant (S6) over all reachable abstract states incl. unwind exits; the "
+              "arena-drop walk over all short list shapes from every phase; no use after release inside the collector; live flag "
+              "set only at allocation. Allocator-side accounting on histories is not decided."),
+    "C05": _c(TS + "; call-graph rule (weak queries never reach a value dereference)",
+              "Truth tables of GcWeak::upgrade/is_dropped/is_dead and of weak tracing/barriers extracted from MIR through the public "
+              "API for every (phase, colour, live, needs-trace) state, compared with the specification; live-flag monotonicity and "
+              "upgrade-vs-sweep consistency (S5) on the automaton."),
+    "C06": _c(TS + " applied end-to-end to every sanctioned adoption path",
+              "Each explicit barrier and each sanctioned adoption path (11 paths) is abstractly interpreted from its MIR for every "
+              "phase x parent colour x needs-trace x child colour x None/alias case; the tri-colour post-condition, frame "
+              "conditions and panic-freedom are checked on every outcome. Survival over later cycles is the composition with "
+              "C01's obligations, not a history exploration."),
+    "C07": _c(TS + "; protocol exploration of mark_debt/finish_marking; call-graph rule for Finalization",
+              "is_dead / resurrect tables through the public API; MarkedArena returned exactly when the call ends Marked (from "
+              "do_collection's MIR); resurrect re-opens marking. Exactness of is_dead on concrete graphs needs the global theorem."),
+    "C08": _c("abstract reachability of Context::do_collection and the Arena wrappers interpreted from MIR (finite state, "
+              "loop detection by state hashing) against a per-method protocol table",
+              "Every (method, entry phase, pending work, cursor, list) case and every nondeterministic debt/work outcome is explored; "
+              "phase walks, stop phases, Option-ness of MarkedArena and the collection_phase mapping are compared with the "
+              "specification. Exhaustive over the finite abstract domain."),
+    "C10": _c(TS + " with a trace-credit ghost (S4); who-may-call pairing rules; subtraction inventory",
+              "No reachable abstract state lets mark_gc_untraced fire without an outstanding credit (this is the rule that found the "
+              "traced_gcs underflow, repaired by fix cddd983); credits match work in every primitive; count pairing by call-graph "
+              "rules. Numeric wrap by addition and allocator equality on histories are not decided."),
+    "C11": _c(TS + " on unwind edges; CFG/dataflow rules for constructors and the slice builder",
+              "Every may-unwind call site in the collector is enumerated (not sampled): unwind rows of mark_one/sweep_one/DropAll, "
+              "protocol on unwinding exits of do_collection, constructor callbacks dropping the boxed context, slice-builder "
+              "prefix discipline. The continued-history behaviour follows from invariants holding at unwinding exits."),
 }
